@@ -8,7 +8,7 @@ from . import arena, build, tlc
 
 
 from .engines_common import Result  # noqa: E402
-from . import handlers, tok, printf, alloc, threads, p2, sort, norm, mbs, ts, erase  # noqa: E402
+from . import handlers, tok, printf, alloc, threads, p2, sort, norm, mbs, ts, erase, osenv  # noqa: E402
 
 
 # --------------------------------------------------------------------------------------
@@ -141,16 +141,30 @@ def run_arena(prop, tier, seed, workdir, families=None):
 
 NO_SRC = set(ARENA_FAMILIES['fill']['fns'] + ARENA_FAMILIES['xform']['fns'])
 
+OSENV_PROPS = {"C01", "C02", "C03", "C04", "C05", "C06", "C08"}
+
+
 def run_arena_and_printf(prop, tier, seed, workdir):
     res = run_arena(prop, tier, seed, workdir)
     printf.run_props(prop, tier, seed, workdir, res)
     res.coverage["rule"] += "; plus the formatted-output family (GenPrintf/TracePrintf, see coverage.printf_cases)"
+    if prop in OSENV_PROPS:
+        osenv.run_props(prop, tier, seed, workdir, res)
+    return res
+
+
+def run_arena_and_os(prop, tier, seed, workdir):
+    res = run_arena(prop, tier, seed, workdir)
+    if prop in OSENV_PROPS:
+        osenv.run_props(prop, tier, seed, workdir, res)
     return res
 
 
 ENGINES = {"C13": handlers.run, "C14": tok.run, "C09": printf.run_c09, "C11": printf.run_c11, "C12": threads.run, "C20": alloc.run, "C16": sort.run, "C17": norm.run, "C15": mbs.run, "C19": ts.run, "C18": erase.run}
-for _p in ("C02", "C06", "C07", "C10"):
+for _p in ("C07", "C10"):
     ENGINES[_p] = run_arena
+for _p in ("C02", "C06"):
+    ENGINES[_p] = run_arena_and_os
 for _p in ("C01", "C03", "C04", "C05", "C08"):
     ENGINES[_p] = run_arena_and_printf
 
@@ -171,6 +185,8 @@ def replay(prop, path, workdir):
         res = printf.replay(rp, workdir)
         res.violations = [v for v in res.violations if prop in v.get("props", [prop])]
         return res
+    elif rp["kind"] == "osenv":
+        return osenv.replay(rp, workdir, prop)
     elif rp["kind"] == "erase":
         return erase.replay(rp, workdir)
     elif rp["kind"] == "ts":
